@@ -58,6 +58,7 @@ def check(ctx):
     _r11_1(ctx, P)
     _r11_2(ctx, P)
     _r11_345(ctx, P)
+    _omitted_options(ctx, P)
 
 
 # ------------------------------------------------------------------ R11.1
@@ -131,21 +132,35 @@ def _r11_1(ctx, P):
     except (Unmodelled, AnalysisError) as e:
         ctx.unknown("R11.1", "defaults", str(e))
 
+    class _Skip(Exception):
+        pass
+
     # -- call: bound options reach apply_as_grid_ufunc; call-time overrides
-    def run_call(call_kwargs):
+    def run_call(call_kwargs, bound=None):
         calls, m = _capture_apply()
         ev2 = Evaluator(P, models={"grid_ufunc:apply_as_grid_ufunc": m})
         attrs = {"__class__": "grid_ufunc:GridUFunc", "ufunc": Obj("func", "userfunc"), "signature": Obj("Signature", "bound-sig")}
         attrs.update({o: Sym("DEF_" + o) for o in OPTIONS})
+        attrs.update(bound or {})
         me = Obj("GridUFunc", "self", (), attrs)
         g = make_grid()
         da = make_da("da", [dimsym("AX", "center")])
-        outs = ev2.run_paths(callf, lambda: dict(self=me, grid=g, args=(da,), axis=Sym("USER_AXIS"), kwargs=dict(call_kwargs)))
+        try:
+            outs = ev2.run_paths(callf, lambda: dict(self=me, grid=g, args=(da,), axis=Sym("USER_AXIS"), kwargs=dict(call_kwargs)))
+        except Unmodelled as e:
+            # opaque option values (one token per option) cannot be followed through this tree: no verdict for this case only
+            ctx.unknown("R11.1", f"GridUFunc.__call__ with call-time {sorted(call_kwargs)} on {'concrete' if bound else 'opaque'} bound options", str(e))
+            raise _Skip()
         return outs, calls, me, g, da
 
     try:
-        outs, calls, me, g, da = run_call({"other_component": Sym("USER_OTHER"), "keep_coords": Sym("USER_KEEP")})
-        if len(calls) != 1 or any(o.kind != "return" for o in outs):
+        try:
+            outs, calls, me, g, da = run_call({"other_component": Sym("USER_OTHER"), "keep_coords": Sym("USER_KEEP")})
+        except _Skip:
+            outs, calls = [], []
+        if not outs and not calls:
+            pass
+        elif len(calls) != 1 or any(o.kind != "return" for o in outs):
             ctx.report("R11.1", callf, "call without call-time options", "calling a GridUFunc does not result in exactly one call of apply_as_grid_ufunc")
         else:
             args, kw = calls[0]
@@ -162,7 +177,10 @@ def _r11_1(ctx, P):
                 else:
                     ctx.ok("R11.1", f"bound {opt} used at call", "reaches apply_as_grid_ufunc")
         for opt in OPTIONS:
-            outs, calls, me, g, da = run_call({opt: Sym("CALL_" + opt)})
+            try:
+                outs, calls, me, g, da = run_call({opt: Sym("CALL_" + opt)})
+            except _Skip:
+                continue
             inst = f"call-time {opt} overrides"
             if any(o.kind != "return" for o in outs):
                 o = [o for o in outs if o.kind != "return"][0]
@@ -175,9 +193,26 @@ def _r11_1(ctx, P):
                     ctx.report("R11.1", callf, inst, f"overriding `{opt}` disturbs the bound {others}")
                 else:
                     ctx.ok("R11.1", inst, "call-time value wins, the other bound options are kept")
+        # options that are mappings are replaced as a whole, not merged entry by entry: "call-time values override" means the
+        # call acts exactly as if the option had been passed to apply_as_grid_ufunc directly
+        for opt, bound_v, call_v in (("boundary_width", {"X": (1, 0), "Y": (0, 1)}, {"X": (2, 2)}), ("boundary", {"X": "fill", "Y": "extend"}, {"Y": "periodic"}), ("fill_value", {"X": 1.5, "Y": 2.5}, {"X": 0.0})):
+            inst = f"call-time {opt} mapping replaces the bound mapping"
+            try:
+                outs, calls, me, g, da = run_call({opt: dict(call_v)}, bound={opt: dict(bound_v)})
+            except _Skip:
+                continue
+            if any(o.kind != "return" for o in outs) or len(calls) != 1:
+                ctx.report("R11.1", callf, inst, f"passing a {opt} mapping at call time fails")
+            elif calls[0][1].get(opt) != call_v:
+                ctx.report("R11.1", callf, inst, f"with {opt}={bound_v!r} bound at definition and {call_v!r} given at call time apply_as_grid_ufunc receives {calls[0][1].get(opt)!r}: the call does not act as if {call_v!r} had been passed directly")
+            else:
+                ctx.ok("R11.1", inst, "the call-time mapping is what apply_as_grid_ufunc receives")
         # a call-time value that happens to be falsy (0, False) is still a value
         for opt, val in (("fill_value", 0), ("fill_value", 0.0), ("map_overlap", False), ("pad_before_func", False)):
-            outs, calls, me, g, da = run_call({opt: val})
+            try:
+                outs, calls, me, g, da = run_call({opt: val})
+            except _Skip:
+                continue
             inst = f"call-time {opt}={val!r} overrides"
             if any(o.kind != "return" for o in outs) or len(calls) != 1:
                 ctx.report("R11.1", callf, inst, f"passing {opt}={val!r} at call time fails")
@@ -306,6 +341,41 @@ def _r11_2(ctx, P):
             ctx.ok("R11.2", inst, "order of first appearance" if want != "raise" else "refused")
 
 
+def _omitted_options(ctx, P):
+    """R11.5: an option the caller leaves out stays left out on its way to pad() - and the one that is given arrives - so that the
+    Grid-level setting applies to the former (a fill value without a rule is used with the Grid's rule, and the other way round)."""
+    from .c02 import same_option
+
+    fi = P.func("grid_ufunc:apply_as_grid_ufunc")
+    for what, over in (("a fill value without a rule", dict(boundary=None)), ("a rule without a fill value", dict(fill_value=None)), ("neither", dict(boundary=None, fill_value=None))):
+        for before in (True, False):
+            inst = f"apply_as_grid_ufunc with {what}, {'pad before' if before else 'pad after'}"
+            try:
+                outs = run_apply(P, "(X:center)->(X:left)" if before else "(X:center)->(X:outer)", [(Sym("AX"),)], boundary_width={"X": (1, 0)}, pad_before_func=before, **over)
+            except Unmodelled as e:
+                ctx.unknown("R11.5", inst, str(e))
+                continue
+            bad = None
+            n = 0
+            for o in outs:
+                for e in o.events:
+                    if e[0] != "pad":
+                        continue
+                    n += 1
+                    want_b = None if "boundary" in over else Sym("USER_BOUNDARY")
+                    want_f = None if "fill_value" in over else Sym("USER_FILL")
+                    if not same_option(P, "boundary", e[2], want_b):
+                        bad = bad or f"pad() receives boundary={e[2]!r}; the caller gave {'none' if want_b is None else 'one'}"
+                    if not same_option(P, "fill_value", e[3], want_f):
+                        bad = bad or f"pad() receives fill_value={e[3]!r}; the caller gave {'none: the Grid-level value must apply' if want_f is None else 'one: it is dropped'}"
+            if not n:
+                ctx.unknown("R11.5", inst, "no pad() call seen")
+            elif bad:
+                ctx.report("R11.5", fi, inst, bad)
+            else:
+                ctx.ok("R11.5", inst, "given options arrive, omitted ones stay omitted")
+
+
 # ------------------------------------------------------------------ R11.3 - R11.5
 def _oc_key(oc):
     if isinstance(oc, dict):
@@ -359,7 +429,10 @@ def _r11_345(ctx, P):
                 if widths != exp_bw:
                     probs.setdefault("R11.5", f"pad() receives widths {widths!r}; expected boundary_width translated to real axes {exp_bw!r}")
                 if boundary != Sym("USER_BOUNDARY") or fill != Sym("USER_FILL"):
-                    probs.setdefault("R11.5", "the caller's boundary / fill_value do not reach pad()")
+                    from .c02 import same_option
+
+                    if not (same_option(P, "boundary", boundary, Sym("USER_BOUNDARY")) and same_option(P, "fill_value", fill, Sym("USER_FILL"))):
+                        probs.setdefault("R11.5", "the caller's boundary / fill_value do not reach pad()")
                 if grid_ is not g:
                     probs.setdefault("R11.5", "pad() is not given the grid")
                 if exp_other is not None and _oc_key(oc) != _oc_key(exp_other[i]):
